@@ -1218,6 +1218,26 @@ def exC : List QPt := [⟨0, 0, false⟩, ⟨50, 0, true⟩, ⟨100, 0, false⟩
 example : dropSingleC exC = [⟨0, 0, false⟩, ⟨100, 0, false⟩, ⟨100, 100, false⟩, ⟨10, 200, true⟩] ∧
     expandImplied (dropSingleC exC) = expandImplied exC ∧ exC.map roundPt = exC := by decide +kernel
 
+/-- **C02_drop_maximal**: nothing impliable is left in a compiled contour -/
+theorem C02_drop_maximal (c : List QPt) : noImpliableLeft (ttDropC c) = true := by
+  rw [noImpliableLeft, all_eq_true, ttDropC, ofTT_roundQ]
+  intro b hb
+  rw [idem_contour dropTest dropTest roundPt (fun _ _ _ h => dropTest_flags h) (fun _ _ _ h => dropTest_of_round h) c b hb]
+  rfl
+
+/-- **C02_drop_glyph_spec_max**: the single-font model meets the whole single-font predicate -/
+theorem C02_drop_glyph_spec_max (g : QGlyph) : holdsDropGlyphMax g ((dropSingle g).map roundQ) = true := by
+  rw [holdsDropGlyphMax, Bool.and_eq_true]
+  refine ⟨C02_drop_glyph_spec g, ?_⟩
+  rw [dropSingle_eq, all_eq_true]
+  intro o ho
+  simp only [map_map, mem_map, Function.comp] at ho
+  obtain ⟨c, -, rfl⟩ := ho
+  exact C02_drop_maximal c
+
+/-- … and it is a real demand: the undropped contour fails it -/
+example : noImpliableLeft (roundQ exC) = false := by decide +kernel
+
 def exRing : List QPt :=
   [⟨50, 0, true⟩, ⟨100, 0, false⟩, ⟨100, 50, true⟩, ⟨100, 100, false⟩, ⟨50, 100, true⟩, ⟨0, 100, false⟩, ⟨0, 50, true⟩, ⟨0, 0, false⟩]
 
